@@ -7,6 +7,8 @@ inductive DSt
   | iq (s : St)
   | mam (s : Mam.St)
   | neg (s : Neg.St)
+  | blk (s : Blocklist.St)
+  | sens (s : Sensitive.St)
 
 def parseId (w : String) : Id :=
   if w = "-" then .named ""
@@ -93,6 +95,30 @@ def negOp (ws : List String) : Option Neg.Op :=
   | ["ndisc"] => some .disconnect
   | _ => (iqOp ws).map .base
 
+def blkOp (ws : List String) : Option Blocklist.Op :=
+  match ws with
+  | ["fetch"] => some .fetch
+  | ["iqok"] => some (.iqDone true)
+  | ["iqerr"] => some (.iqDone false)
+  | ["newsess"] => some .newSession
+  | ["resumed"] => some .resumedSession
+  | _ => none
+
+def sensOp (ws : List String) : Option Sensitive.Op :=
+  match ws with
+  | ["start"] => some .start
+  | ["enc", b] => (bit b).map .encDone
+  | ["iq", b] => (bit b).map .iqDone
+  | ["dec", "ok"] => some (.decDone .decrypted)
+  | ["dec", "ne"] => some (.decDone .notEncrypted)
+  | ["dec", "err"] => some (.decDone .error)
+  | ["dropext"] => some .dropExtension
+  | _ => none
+
+def showSensEv : Sensitive.Ev → String
+  | .finishedOk d => if d then "ok:1" else "ok:0"
+  | .finishedErr => "err"
+
 def mamOp (ws : List String) : Option Mam.Op :=
   match ws with
   | ["start"] => some .start
@@ -112,6 +138,8 @@ def stepLine (d : DSt) (line : String) : DSt × String :=
     match bit sock, bit sm with
     | some sock, some sm => (.iq (init (parseStr own) sock sm), "ok")
     | _, _ => (d, "bad-op")
+  | ["reset", "blk"] => (.blk Blocklist.init, "ok")
+  | ["reset", "sens"] => (.sens Sensitive.init, "ok")
   | ["reset", "neg", own] => (.neg (Neg.init (parseStr own)), "ok")
   | ["reset", "mam", e, i] =>
     match bit e, bit i with
@@ -126,6 +154,16 @@ def stepLine (d : DSt) (line : String) : DSt × String :=
     | .neg s =>
       match negOp ws with
       | some op => let r := Neg.step s op; (.neg r.1, obsIq r.1.base r.2)
+      | none => (d, "bad-op")
+    | .blk s =>
+      match blkOp ws with
+      | some op =>
+        let r := Blocklist.step s op
+        (.blk r.1, dash (r.2.map fun e => s!"{e.call}:{if e.ok then "ok" else "err"}") ++ (if r.1.cached then "|c=1" else "|c=0"))
+      | none => (d, "bad-op")
+    | .sens s =>
+      match sensOp ws with
+      | some op => let r := Sensitive.step s op; (.sens r.1, dash (r.2.map showSensEv))
       | none => (d, "bad-op")
     | .mam s =>
       match mamOp ws with
